@@ -79,7 +79,7 @@ func genC16(ctx *Ctx) {
 		}
 	}
 	rec2("", 4)
-	types := []int64{7, 9, 10, 2, 12, 13} // Symbol Word Keyword Eol Comment Special
+	types := []int64{7, 9, 10, 2, 12, 13, 0} // Symbol Word Keyword Eol Comment Special Unknown
 	emit := func(syms []string) {
 		var regs sx.List
 		for i, s := range syms {
@@ -109,7 +109,7 @@ func genC16(ctx *Ctx) {
 		emit([]string{strs[ctx.Rnd.Intn(len(strs))], strs[ctx.Rnd.Intn(len(strs))], strs[ctx.Rnd.Intn(len(strs))]})
 	}
 	// random larger sets over a richer alphabet
-	alpha := []rune{'a', 'b', '<', '=', '>', 'é', '日'}
+	alpha := []rune{'a', 'b', '<', '=', '>', 'é', '日', 'ÿ', 'þ', 'Ā', 0xFFFE}
 	rstr := func(max int) string {
 		n := 1 + ctx.Rnd.Intn(max)
 		rs := make([]rune, n)
@@ -125,7 +125,7 @@ func genC16(ctx *Ctx) {
 		for j := 0; j < n; j++ {
 			s := rstr(4)
 			syms = append(syms, s)
-			regs = append(regs, sx.L(sx.S(s), sx.I(int64(1+ctx.Rnd.Intn(13)))))
+			regs = append(regs, sx.L(sx.S(s), sx.I(int64(ctx.Rnd.Intn(14)))))
 		}
 		var ins sx.List
 		for j := 0; j < 40; j++ {
